@@ -1,4 +1,5 @@
-import FiberModel.C11.LemmasBind
+import FiberModel.C11.LemmasTransport
+import FiberModel.C11.LemmasFloat
 /-
 C11 — property theorems (only).
 
@@ -10,7 +11,9 @@ JSON / XML / CBOR codecs are *parameters*: `BodyCodecs` carries `enc`/`dec` and 
 a hypothesis of `bind_roundtrip_body` (never an axiom). For multipart the mime/multipart writer and
 reader are the parameter "every field's values arrive under its name, fields in any order"
 (`bind_roundtrip_multipart` quantifies over the order). `strconv.ParseFloat ∘ FormatFloat = id` is
-the hypothesis `FloatOK`. Helper lemmas live in Lemmas.lean / LemmasBind.lean.
+the hypothesis `FloatOK` of the struct-level theorems; it is *discharged* (section "float text") for the
+exact decimal expansions of representable values (both widths) and, by construction of the formatter
+model, for the shortest text of every float64. Helper lemmas live in Lemmas*.lean.
 -/
 namespace C11
 open B
@@ -150,6 +153,49 @@ theorem bind_roundtrip_multipart (floatConv : Nat → Bytes → Option Bytes) (f
     bindPairs floatConv fz (st.map (·.spec)) .form split (clientPairs order) = { value := st, err := false } :=
   bind_clientPairs_perm floatConv fz st order .form split horder hspecs htyped hfloat hsplit
 
+/-- **Multipart body, writer and reader.** What the multipart reader model finds in the body
+    `parserRequestBodyFile` wrote (one `WriteField` per form argument in order, then the files, then
+    the closing delimiter) is the list of form arguments — same order, repeated names kept, every
+    value byte for byte (CR, LF, quotes, `--`, anything) — provided the boundary has no CR, the names
+    need no escaping, and **no value contains `CRLF "--" boundary`** (`delimFree`: the one thing a
+    multipart value cannot carry; the client draws 16 random characters per request). -/
+theorem readMultipart_writeMultipart (bd : Bytes) (fields : List (Bytes × Bytes))
+    (files : List (Bytes × Bytes × Bytes))
+    (hbd : ∀ x ∈ bd, x ≠ 13)
+    (hf : ∀ kv ∈ fields, partNameOK kv.1 = true ∧ delimFree bd kv.2 = true)
+    (hfile : ∀ f ∈ files, partNameOK f.1 = true ∧ (∀ x ∈ f.2.1, x ≠ 13) ∧ delimFree bd f.2.2 = true) :
+    readMultipart bd (writeMultipart bd fields files) = some fields :=
+  readMultipart_writeMultipart' bd fields files hbd hf hfile
+
+example : readMultipart (b "--FBq") (writeMultipart (b "--FBq")
+      [(b "s", b "a\r\nb\"c"), (b "ss", []), (b "ss", b "--FBq"), (b "ss", b "\r\n--")] [(b "file1", b "f.txt", b "data")])
+    = some [(b "s", b "a\r\nb\"c"), (b "ss", []), (b "ss", b "--FBq"), (b "ss", b "\r\n--")] ∧
+    delimFree (b "--FBq") (b "x\r\n----FBq") = false ∧
+    readMultipart (b "--FBq") (writeMultipart (b "--FBq") [(b "s", b "x\r\n----FBq\r\n")] []) = none := by decide +kernel
+
+/-- **Multipart, end to end over the wire**: the body the client writes for `SetFormDataWithStruct` +
+    a file is read back as the client's pairs, and whatever order the Go map `multipartForm.Value`
+    hands the *fields* over in (`order`), `FormBinding.bindMultipart` yields the struct. -/
+theorem bind_roundtrip_multipart_wire (floatConv : Nat → Bytes → Option Bytes) (fz : Bytes) (st order : Struct)
+    (split : Bool) (bd : Bytes) (files : List (Bytes × Bytes × Bytes)) (horder : order.Perm st)
+    (hspecs : specsOK (st.map (·.spec)) = true) (htyped : ∀ f ∈ st, f.wellTyped = true)
+    (hfloat : FloatOK floatConv st) (hsplit : split = true → noCommas st = true)
+    (hbd : ∀ x ∈ bd, x ≠ 13)
+    (hvals : ∀ f ∈ st, ∀ v ∈ f.vals, delimFree bd (textOf v) = true)
+    (hfile : ∀ f ∈ files, partNameOK f.1 = true ∧ (∀ x ∈ f.2.1, x ≠ 13) ∧ delimFree bd f.2.2 = true) :
+    readMultipart bd (writeMultipart bd (clientPairs st) files) = some (clientPairs st) ∧
+    bindPairs floatConv fz (st.map (·.spec)) .form split (clientPairs order) = { value := st, err := false } := by
+  refine ⟨?_, bind_roundtrip_multipart floatConv fz st order split horder hspecs htyped hfloat hsplit⟩
+  have hspecs' := hspecs
+  unfold specsOK at hspecs'
+  simp only [Bool.and_eq_true, List.all_eq_true, List.mem_map, forall_exists_index, and_imp,
+    forall_apply_eq_imp_iff₂] at hspecs'
+  apply readMultipart_writeMultipart' bd _ files hbd _ hfile
+  intro kv hkv
+  simp only [clientPairs, List.mem_flatMap, List.mem_map] at hkv
+  obtain ⟨f, hf, v, hv, rfl⟩ := hkv
+  exact ⟨aliasOK_partName _ (hspecs'.1 f hf).1, hvals f hf v hv⟩
+
 /-- **Header.** fasthttp canonicalises header names on the client and on the server
     (`normalizeHeaderKey`: `x-request-id` travels as `X-Request-Id`); `Bind().Header` matches names
     case-insensitively, so binding the lines as they arrive gives the struct. No bracket normalisation
@@ -168,6 +214,78 @@ theorem bind_roundtrip_header (floatConv : Nat → Bytes → Option Bytes) (fz :
     forall_apply_eq_imp_iff₂] at hspecs'
   exact bind_clientPairs_gen floatConv fz st st .header split normalizeHeaderKey (List.Perm.refl st)
     (fun f hf => normalizeHeaderKey_ok _ (hspecs'.1 f hf).1) hspecs htyped hfloat hsplit
+
+/-- **Pairs under names no field answers to are ignored** by the header and cookie binders
+    (`IgnoreUnknownKeys`; no bracket notation on these sources, so no key can be an error): whatever
+    they carry, wherever they stand, the bound value and the error flag are those of the remaining pairs. -/
+theorem bind_ignores_unrelated_pairs (floatConv : Nat → Bytes → Option Bytes) (fz : Bytes)
+    (specs : List FieldSpec) (src : Source) (split : Bool) (pairs : List (Bytes × Bytes))
+    (hsrc : src.brackets = false) :
+    bindPairs floatConv fz specs src split pairs =
+      bindPairs floatConv fz specs src split
+        (pairs.filter fun kv => specs.any fun f => toLower kv.1 == toLower f.salias) :=
+  bindPairs_ignores_unrelated floatConv fz specs src split pairs
+    (fun k => specs.any fun f => toLower k == toLower f.salias) hsrc
+    (fun f hf k hk => List.any_eq_true.mpr ⟨f, hf, by simpa using hk⟩)
+
+/-- **Header lines on the wire.** What fasthttp's `headerScanner` / `parseHeaders` read back from the
+    lines `appendHeaderLine` wrote (`name ": " value CRLF`, then the blank line) is the same list of
+    lines — every name in canonical spelling, every value unchanged — for names that are tokens and
+    values inside `headerValueOK` (HTAB / SP / VCHAR / obs-text, no outer blank: the scanner strips
+    blanks around a value, `parseHeaders` refuses the other bytes). Order and repeated names kept. -/
+theorem parseHeaders_writeHeaders (ps : List (Bytes × Bytes))
+    (hk : ∀ kv ∈ ps, headerKeyOK kv.1 = true) (hv : ∀ kv ∈ ps, headerValueOK kv.2 = true) :
+    headerTransport ps = .ok (ps.map fun kv => (normalizeHeaderKey kv.1, kv.2)) [] := by
+  unfold headerTransport
+  simp only [List.append_assoc, List.cons_append, List.nil_append]
+  apply parseHeaderLines_write ps [] _ hk hv
+  simp only [List.length_append, List.length_cons, List.length_nil]
+  have := writeHeaderLines_length ps
+  omega
+
+example : headerTransport [(b "x-nt", b "a, b"), (b "X-S", []), (b "x-nt", b "\"q\" é")]
+    = .ok [(b "X-Nt", b "a, b"), (b "X-S", []), (b "X-Nt", b "\"q\" é")] [] ∧
+    -- outside the predicate: outer blanks are stripped, a control byte makes the server refuse the request
+    headerTransport [(b "X-S", b " a\t")] = .ok [(b "X-S", b "a")] [] ∧
+    headerTransport [(b "X-S", [1])] = .bad := by decide
+
+/-- **Header, end to end over the wire.** The header lines `SetValWithStruct` added (one per
+    element, names as tagged), written by fasthttp's request writer and read back by its header
+    scanner, arrive as the client's pairs under canonical names, and `Bind().Header` of those — *together
+    with any other header lines of the request* (`Host`, `User-Agent`, `Content-Length`, … : every pair
+    whose name no field answers to, anywhere among the lines) — is the struct. -/
+theorem bind_roundtrip_header_wire (floatConv : Nat → Bytes → Option Bytes) (fz : Bytes) (st : Struct)
+    (split : Bool) (delivered : List (Bytes × Bytes))
+    (hspecs : specsOK (st.map (·.spec)) = true) (htyped : ∀ f ∈ st, f.wellTyped = true)
+    (hfloat : FloatOK floatConv st)
+    (hwf : ∀ f ∈ st, ∀ v ∈ f.vals, headerValueOK (textOf v) = true)
+    (hsplit : split = true → noCommas st = true)
+    (hdel : delivered.filter (fun kv => (st.map (·.spec)).any fun f => toLower kv.1 == toLower f.salias)
+              = clientPairsN normalizeHeaderKey st) :
+    headerTransport (clientPairs st) = .ok (clientPairsN normalizeHeaderKey st) [] ∧
+    bindPairs floatConv fz (st.map (·.spec)) .header split delivered = { value := st, err := false } := by
+  have hspecs' := hspecs
+  unfold specsOK at hspecs'
+  simp only [Bool.and_eq_true, List.all_eq_true, List.mem_map, forall_exists_index, and_imp,
+    forall_apply_eq_imp_iff₂] at hspecs'
+  constructor
+  · rw [clientPairsN_eq_map]
+    apply parseHeaders_writeHeaders
+    · intro kv hkv
+      simp only [clientPairs, List.mem_flatMap, List.mem_map] at hkv
+      obtain ⟨f, hf, v, _, rfl⟩ := hkv
+      exact aliasOK_headerKey _ (hspecs'.1 f hf).1
+    · intro kv hkv
+      simp only [clientPairs, List.mem_flatMap, List.mem_map] at hkv
+      obtain ⟨f, hf, v, hv, rfl⟩ := hkv
+      exact hwf f hf v hv
+  · rw [bindPairs_ignores_unrelated floatConv fz (st.map (·.spec)) .header split delivered
+      (fun k => (st.map (·.spec)).any fun f => toLower k == toLower f.salias) rfl
+      (fun f hf k hk => by
+        apply List.any_eq_true.mpr
+        exact ⟨f, hf, by simpa using hk⟩)]
+    rw [hdel]
+    exact (bind_roundtrip_header floatConv fz st split hspecs htyped hfloat hsplit).1
 
 /-- … and more generally for any transport that re-spells names by ASCII case only (any source, any
     field order). -/
@@ -231,7 +349,8 @@ theorem bind_cookie_yields_lastOnly (floatConv : Nat → Bytes → Option Bytes)
       · left; rw [hsp]; exact h
       · rw [h2] at h; simp at h
   · intro g hg t ht
-    obtain ⟨f, hf, _, hvs, _⟩ := hsub g hg
+    obtain ⟨f, hf, hsp, hvs, _⟩ := hsub g hg
+    rw [hsp]
     exact hfloat f hf t (hvs _ ht)
   · intro hs
     have hnc := hsplit hs
@@ -266,6 +385,38 @@ theorem bind_roundtrip_cookie_witness_K1 :
     ¬ (bindPairs (fun _ t => some t) (b "0") (witnessK1.map (·.spec)) .cookie false
         (wirePairs .cookie (renderCookies (cookiePairs witnessK1))) = { value := witnessK1, err := false }) := by
   decide
+
+/-- **K1 is a client-side defect only.** Had the client written one `name=value` pair per element
+    into the Cookie header — as `SetValWithStruct` does for query parameters, form data and header
+    lines — `Bind().Cookie` would return the struct, for *every* well-typed struct with cookie-safe
+    values, with splitting on (comma-free values) and off: the request-cookie scanner keeps repeated
+    names (`parseCookies_renderCookies`) and the binder appends them in order. The wire form
+    `ss=a; ss=b` is therefore the one that round-trips under every configuration; the client cannot
+    produce it because `Cookie` is a `map[string]string` and `RequestHeader.SetCookie` replaces. -/
+theorem bind_roundtrip_cookie_repeated_pairs (floatConv : Nat → Bytes → Option Bytes) (fz : Bytes)
+    (st : Struct) (split : Bool)
+    (hspecs : specsOK (st.map (·.spec)) = true) (htyped : ∀ f ∈ st, f.wellTyped = true)
+    (hfloat : FloatOK floatConv st)
+    (hwf : ∀ f ∈ st, ∀ v ∈ f.vals, cookieValueOK (textOf v) = true)
+    (hsplit : split = true → noCommas st = true) :
+    bindPairs floatConv fz (st.map (·.spec)) .cookie split
+        (wirePairs .cookie (renderCookies (clientPairs st)))
+      = { value := st, err := false } := by
+  simp only [wirePairs, parseCookies_clientPairs st hspecs hwf]
+  exact bind_clientPairs floatConv fz st .cookie split hspecs htyped hfloat hsplit
+
+/-- non-vacuity, on the K1 witness itself: `ss=a; ss=b` binds back as `["a","b"]`. The other
+    candidate repair that keeps `Cookie` a `map[string]string` — joining the elements with ","
+    (fiber's own convention in bind_test.go, `Hobby=golang,fiber`) — does *not* satisfy the property:
+    it reads back whole only when the server splits (`EnableSplittingOnParsers`), and a `[]string`
+    sent to a server that does not split comes back as the one string `"a,b"`. -/
+example : renderCookies (clientPairs witnessK1) = b "ss=a; ss=b" ∧
+    bindPairs (fun _ t => some t) (b "0") (witnessK1.map (·.spec)) .cookie false
+      (wirePairs .cookie (renderCookies (clientPairs witnessK1))) = { value := witnessK1, err := false } ∧
+    bindPairs (fun _ t => some t) (b "0") (witnessK1.map (·.spec)) .cookie true
+      (wirePairs .cookie (b "ss=a,b")) = { value := witnessK1, err := false } ∧
+    (bindPairs (fun _ t => some t) (b "0") (witnessK1.map (·.spec)) .cookie false
+      (wirePairs .cookie (b "ss=a,b"))).value ≠ witnessK1 := by decide
 
 /-- non-vacuity of the round-trip hypotheses: a concrete struct with reserved bytes, an empty string,
     extreme integers, a float and a slice meets every one of them, for each source (and the wire
@@ -303,7 +454,15 @@ example : FloatOK (fun _ t => some t) sampleStruct := by
   simp only [sampleStruct, List.mem_cons, List.not_mem_nil, or_false] at hf
   rcases hf with rfl | rfl | rfl | rfl <;> simp at ht
   subst ht
-  exact ⟨by decide, by decide, fun _ => rfl⟩
+  exact ⟨by decide, by decide, fun _ _ => rfl⟩
+
+/-- non-vacuity: the sample struct's lines between the client's own headers -/
+example : wfStruct .header sampleStruct = true ∧
+    headerTransport (clientPairs sampleStruct) = .ok (clientPairsN normalizeHeaderKey sampleStruct) [] ∧
+    bindPairs (fun _ t => some t) (b "0") (sampleStruct.map (·.spec)) .header true
+      ([(b "User-Agent", b "fiber"), (b "Host", b "example.com")] ++ clientPairsN normalizeHeaderKey sampleStruct ++
+        [(b "Content-Length", b "0"), (b "X-Unknown", b "1,2")])
+      = { value := sampleStruct, err := false } := by decide
 
 /-- the cookie source on the same struct: its two-element slice is cut to the last element
     (`lastOnly`), everything else arrives; with a one-element slice the struct itself arrives. -/
@@ -333,6 +492,143 @@ theorem roundtrip_result_meets_spec (t : Transport) (split auto : Bool) (st : St
 example : specRoundTrip .cookie false false witnessK1
     { panicked := false, ran := true, sendErr := false, dec := structVals (lastOnly witnessK1), err := false,
       code := 0, status := 200 } = some "roundtrip-equal-value" := by decide
+
+/-! ## float text: `FloatOK` discharged -/
+
+/-- **Correctly rounded parsing returns a representable value unchanged (integers).** For every odd
+    `m < 2^p` and every `a` with `m·2^a` below the overflow threshold of the width (24 / 128 for
+    float32, 53 / 1024 for float64): `ParseFloat` of the full decimal digits of `m·2^a` is `m·2^a`. -/
+theorem parseFloat_exact_int (bits : Nat) (neg : Bool) (m a : Nat) (hodd : m % 2 = 1)
+    (hmp : m < 2 ^ (fmtOf bits).p) (hov : m * 2 ^ a < 2 ^ (fmtOf bits).emax) :
+    parseFloat bits (exactText neg m (a : Int)) = some (some (.fin neg m (a : Int))) :=
+  parseFloat_exact_int' bits neg m a hodd hmp hov
+
+/-- **… and dyadic fractions.** For every odd `m < 2^p` and `0 < k ≤ 1074` (149 for float32):
+    `ParseFloat` of the full decimal expansion of `m / 2^k` (`k` fraction digits) is `m / 2^k`,
+    subnormals included. -/
+theorem parseFloat_exact_frac (bits : Nat) (neg : Bool) (m k : Nat) (hodd : m % 2 = 1)
+    (hmp : m < 2 ^ (fmtOf bits).p) (hk : 0 < k) (hkmin : (fmtOf bits).qminB + k ≤ (fmtOf bits).bias) :
+    parseFloat bits (exactText neg m (-(k : Int))) = some (some (.fin neg m (-(k : Int)))) :=
+  parseFloat_exact_frac' bits neg m k hodd hmp hk hkmin
+
+example : exactText false 987654321 (-3) = b "123456790.125" ∧ exactText true 1 (-1) = b "-0.5" ∧
+    exactText false 3 10 = b "3072" ∧ exactText false 1 (-20) = b "0.00000095367431640625" ∧
+    parseFloat 32 (b "123456790.125") = some (some (.fin false 15432099 3)) ∧   -- not a float32: rounded
+    parseFloat 64 (b "123456790.125") = some (some (.fin false 987654321 (-3))) ∧
+    parseFloat 32 (b "16777217") = some (some (.fin false 1 24)) ∧               -- tie, to even
+    parseFloat 32 (b "340282356779733661637539395458142568448") = some none ∧      -- half an ulp above MaxFloat32
+    parseFloat 64 (b "1e") = some none ∧ parseFloat 64 (b "1_0") = none := by decide +kernel
+
+/-- a float text that names a value of the width `bits` by its full decimal expansion (or is a zero) -/
+def ExactFloat (bits : Nat) (t : Bytes) : Prop :=
+  ∃ neg : Bool, t = exactText neg 0 0 ∨
+    ∃ m : Nat, m % 2 = 1 ∧ m < 2 ^ (fmtOf bits).p ∧
+      ((∃ a : Nat, m * 2 ^ a < 2 ^ (fmtOf bits).emax ∧ t = exactText neg m (a : Int)) ∨
+       (∃ k : Nat, 0 < k ∧ (fmtOf bits).qminB + k ≤ (fmtOf bits).bias ∧ t = exactText neg m (-(k : Int))))
+
+/-- **`FloatOK` without hypothesis, exact expansions.** When every float of the struct travels as the
+    full decimal expansion of its value (what `FormatFloat(v,'f',-1,64)` prints whenever that
+    expansion has at most 15 significant digits: integers below 10^15, halves, quarters, …,
+    `123456789.125`), the server's `ParseFloat` at the field's own width returns that value — float32
+    and float64 fields alike. (`floatConvE` = parse, then name the value by its expansion.) -/
+theorem floatOK_exact (st : Struct)
+    (h : ∀ f ∈ st, ∀ t, Val.float t ∈ f.vals → ∃ bits, f.spec.kind = .float bits ∧ ExactFloat bits t) :
+    FloatOK floatConvE st := by
+  intro f hf t ht
+  obtain ⟨bits, hk, neg, hex⟩ := h f hf t ht
+  have key : ∃ m e, t = exactText neg m e ∧ parseFloat bits t = some (some (.fin neg m e)) := by
+    rcases hex with rfl | ⟨m, hodd, hmp, hcase⟩
+    · exact ⟨0, 0, rfl, parseFloat_zero bits neg⟩
+    · rcases hcase with ⟨a, hov, rfl⟩ | ⟨k, hk0, hkm, rfl⟩
+      · exact ⟨m, a, rfl, parseFloat_exact_int' bits neg m a hodd hmp hov⟩
+      · exact ⟨m, -(k : Int), rfl, parseFloat_exact_frac' bits neg m k hodd hmp hk0 hkm⟩
+  obtain ⟨m, e, rfl, hp⟩ := key
+  refine ⟨(exactText_plain neg m e).1, (exactText_plain neg m e).2, ?_⟩
+  intro bits' hk'
+  rw [hk] at hk'
+  cases hk'
+  simp [floatConvE, hp]
+
+/-- **`ParseFloat(·, 64) ∘ FormatFloat(·,'f',-1,64) = id`** for the formatter model: `fmtShortest`
+    returns the shortest decimal that reads back as the value, and says so only after reading it
+    back — every finite float64, ±Inf, NaN. (The weight of this statement is the differential check:
+    `fmtShortest ∘ parseFloat` is compared with strconv on every float of every run.) -/
+theorem parseFloat_fmtShortest (v : FVal) (t : Bytes) (h : fmtShortest v = some t) :
+    parseFloat 64 t = some (some v) :=
+  (parseFloat_fmtShortest' v t h).1
+
+/-- **`FloatOK` without hypothesis, float64 fields.** Every struct whose floats stand in float64 fields
+    and travel as `fmtShortest` of their value. -/
+theorem floatOK_shortest64 (st : Struct)
+    (h : ∀ f ∈ st, ∀ t, Val.float t ∈ f.vals → f.spec.kind = .float 64 ∧ ∃ v, fmtShortest v = some t) :
+    FloatOK floatConvM st := by
+  intro f hf t ht
+  obtain ⟨hk, v, hv⟩ := h f hf t ht
+  obtain ⟨hp, hne, hnc⟩ := parseFloat_fmtShortest' v t hv
+  refine ⟨hne, hnc, ?_⟩
+  intro bits hk'
+  rw [hk] at hk'
+  cases hk'
+  simp [floatConvM, floatConvX, hp, hv]
+
+example : fmtShortest (.fin false 3602879701896397 (-55)) = some (b "0.1") ∧
+    fmtShortest (.fin false 13421773 (-27)) = some (b "0.10000000149011612") ∧   -- float32(0.1), widened
+    fmtShortest (.fin true 1 (-1074)) ≠ none ∧ fmtShortest (.fin false 1 70) = some (b "1180591620717411300000") ∧   -- 2^70: 17 digits, then zeros
+    floatConvM 64 (b "0.1000000000000000055511151231257827") = some (b "0.1") ∧
+    floatConvM 32 (b "0.1") = some (b "0.10000000149011612") ∧ floatConvM 64 (b "1e400") = none := by decide +kernel
+
+/-- the float-free corollary, spelled out for one source: the query round trip of a struct whose floats
+    are exact expansions needs no assumption about strconv. -/
+theorem bind_roundtrip_query_exact_floats (fz : Bytes) (st : Struct) (split : Bool)
+    (hspecs : specsOK (st.map (·.spec)) = true) (htyped : ∀ f ∈ st, f.wellTyped = true)
+    (hex : ∀ f ∈ st, ∀ t, Val.float t ∈ f.vals → ∃ bits, f.spec.kind = .float bits ∧ ExactFloat bits t)
+    (hbytes : bytesStruct st) (hsplit : split = true → noCommas st = true) :
+    bindPairs floatConvE fz (st.map (·.spec)) .query split (wirePairs .query (renderArgs (clientPairs st)))
+      = { value := st, err := false } := by
+  apply bind_roundtrip_query floatConvE fz st split hspecs htyped (floatOK_exact st hex) _ hbytes hsplit
+  intro f hf t ht c hc
+  obtain ⟨bits, _, neg, hexf⟩ := hex f hf t ht
+  have hplain : ∀ (m : Nat) (e : Int), ∀ x ∈ exactText neg m e, x < 256 := by
+    intro m e x hx
+    have h44 := (exactText_plain neg m e)
+    unfold exactText at hx
+    simp only [List.mem_append] at hx
+    rcases hx with hx | hx
+    · cases neg <;> simp at hx
+      omega
+    · split at hx
+      · have := formatNat_digits _ x hx
+        unfold isDigit at this; simp at this; omega
+      · have := (plainByte_lt x ((fmtF_bytes _ _).2 x hx)).1
+        omega
+  rcases hexf with rfl | ⟨m, _, _, ⟨a, _, rfl⟩ | ⟨k, _, _, rfl⟩⟩
+  · exact hplain 0 0 c hc
+  · exact hplain m a c hc
+  · exact hplain m (-(k : Int)) c hc
+
+def floatStruct : Struct :=
+  [{ spec := { calias := b "f32", salias := b "f32", qalias := b "f32", goName := b "F32", kind := .float 32, isSlice := false },
+     vals := [.float (b "-0.5")] },
+   { spec := { calias := b "fs", salias := b "fs", qalias := b "fs", goName := b "FS", kind := .float 64, isSlice := true },
+     vals := [.float (b "123456789.125"), .float (b "0"), .float (b "4294967296")] }]
+
+/-- non-vacuity: a float32 scalar and a float64 slice of exact expansions -/
+example : (∀ f ∈ floatStruct, ∀ t, Val.float t ∈ f.vals → ∃ bits, f.spec.kind = .float bits ∧ ExactFloat bits t) ∧
+    bindPairs floatConvE (b "0") (floatStruct.map (·.spec)) .query true
+      (wirePairs .query (renderArgs (clientPairs floatStruct))) = { value := floatStruct, err := false } ∧
+    bindPairs floatConvM (b "0") (floatStruct.map (·.spec)) .query true
+      (wirePairs .query (renderArgs (clientPairs floatStruct))) = { value := floatStruct, err := false } := by
+  refine ⟨?_, by decide +kernel, by decide +kernel⟩
+  intro f hf t ht
+  simp only [floatStruct, List.mem_cons, List.not_mem_nil, or_false] at hf
+  rcases hf with rfl | rfl
+  · simp at ht; subst ht
+    exact ⟨32, rfl, true, Or.inr ⟨1, by decide +kernel, by decide +kernel, Or.inr ⟨1, by decide +kernel, by decide +kernel, by decide +kernel⟩⟩⟩
+  · simp at ht
+    rcases ht with rfl | rfl | rfl
+    · exact ⟨64, rfl, false, Or.inr ⟨987654313, by decide +kernel, by decide +kernel, Or.inr ⟨3, by decide +kernel, by decide +kernel, by decide +kernel⟩⟩⟩
+    · exact ⟨64, rfl, false, Or.inl (by decide +kernel)⟩
+    · exact ⟨64, rfl, false, Or.inr ⟨1, by decide +kernel, by decide +kernel, Or.inl ⟨32, by decide +kernel, by decide +kernel⟩⟩⟩
 
 /-! ## failures are reported as errors -/
 
